@@ -7,6 +7,8 @@ import CookModel.Lemmas.SpansDoc
 import CookModel.Lemmas.SpansFront
 import CookModel.Lemmas.SpansMeta
 import CookModel.Lemmas.SpansAnalysis
+import CookModel.Lemmas.SpansBytes
+import CookModel.Lemmas.AstBuild
 /-
   C04  Every reported source location is in bounds, on char boundaries, faithful.
 
@@ -385,5 +387,141 @@ example : ¬ DiagOK 0 ['é', 'x'] ⟨.error, .analysis, "k", [⟨1, 3⟩]⟩ := 
     simp [utf8Len] at h2
     have : 'é'.utf8Size = 2 := by decide
     omega
+
+
+/-! ### model offsets are byte offsets of the UTF-8 text; model boundaries are `is_char_boundary`
+
+  The model's text is a list of characters and its offsets are sums of `Char.utf8Size`.  The theorems of this
+  section tie that to the bytes, against Lean core's UTF-8 encoder `List.utf8Encode` (the bytes of
+  `String.ofList`) and core's byte-level notion of a valid position.  With them every `SpanOK 0 input sp` above
+  reads: `sp.start ≤ sp.stop ≤ input.len()`, `input.is_char_boundary(sp.start)`, `input.is_char_boundary(sp.stop)`;
+  and every `SliceAt 0 input o t`: `&input[o .. o + t.len()] == t`, on the bytes. -/
+
+/-- `utf8Len`, the unit of all offsets of the model, is the length in bytes of the UTF-8 encoding -/
+theorem C04_offsets_are_utf8_byte_offsets (l : List Char) :
+    utf8Len l = l.utf8Encode.size ∧ utf8Len l = (String.ofList l).utf8ByteSize :=
+  ⟨spansBytes_utf8Len_encode l, spansBytes_utf8Len l⟩
+
+/-- `Boundary 0 input p` — the notion of "on a character boundary" of every theorem of this file — is
+    exactly: `p` is a valid position of the UTF-8 string in Lean core's byte-level sense
+    (`String.Pos.Raw.IsValid`: `p ≤ len` and the bytes before `p` are valid UTF-8), and exactly what
+    `str::is_char_boundary` tests: `p` is the byte length, or `p` is smaller and the byte at `p` is the
+    first byte of a character (among the bytes of a UTF-8 string: not a continuation byte `10xxxxxx`). -/
+theorem C04_boundary_is_char_boundary (input : List Char) (p : Nat) :
+    (Boundary 0 input p ↔ (⟨p⟩ : String.Pos.Raw).IsValid (String.ofList input)) ∧
+    (Boundary 0 input p ↔
+      p = input.utf8Encode.size ∨ ∃ h : p < input.utf8Encode.size, (input.utf8Encode[p]'h).IsUTF8FirstByte) :=
+  ⟨spansBytes_boundary_iff input p, spansBytes_boundary_iff_first_byte input p⟩
+
+/-- a valid span, in bytes: `start ≤ end ≤ len(input)` (in bounds) and both ends pass `is_char_boundary` -/
+theorem C04_span_ok_in_bytes (input : List Char) (sp : Span) (h : SpanOK 0 input sp) :
+    sp.start ≤ sp.stop ∧ sp.stop ≤ input.utf8Encode.size ∧
+    (⟨sp.start⟩ : String.Pos.Raw).IsValid (String.ofList input) ∧
+    (⟨sp.stop⟩ : String.Pos.Raw).IsValid (String.ofList input) := by
+  refine ⟨h.2.2, ?_, (spansBytes_boundary_iff input _).1 h.1, (spansBytes_boundary_iff input _).1 h.2.1⟩
+  obtain ⟨pre, suf, e, hp⟩ := h.2.1
+  rw [← spansBytes_utf8Len_encode, e, utf8Len_append, hp]; omega
+
+/-- a faithful fragment, in bytes: the bytes `o .. o + len(t)` of the input are the bytes of `t`
+    (`&input[o..o + t.len()] == t`), and its span is a valid span -/
+theorem C04_fragment_is_byte_slice (input : List Char) (o : Nat) (t : List Char) (h : SliceAt 0 input o t) :
+    input.utf8Encode.extract o (o + utf8Len t) = t.utf8Encode ∧ SpanOK 0 input ⟨o, o + utf8Len t⟩ :=
+  ⟨spansBytes_slice input o t h, h.spanOK⟩
+
+/-! non-vacuity: `é` is two bytes; byte 1 is inside it, byte 2 is a boundary -/
+example : utf8Len ['é', 'x'] = 3 ∧ ['é', 'x'].utf8Encode.size = 3 := by decide
+example : ¬ (⟨1⟩ : String.Pos.Raw).IsValid (String.ofList ['é', 'x']) := by
+  rw [← spansBytes_boundary_iff]
+  rintro ⟨pre, suf, h1, h2⟩
+  match pre, h1, h2 with
+  | [], _, h2 => simp [utf8Len] at h2
+  | [c], h1, h2 =>
+    simp only [List.cons_append, List.nil_append, List.cons.injEq] at h1
+    rw [← h1.1] at h2; revert h2; decide
+  | c :: d :: r, h1, h2 =>
+    simp only [List.cons_append, List.cons.injEq] at h1
+    rw [← h1.1, ← h1.2.1] at h2
+    simp [utf8Len] at h2
+    have : 'é'.utf8Size = 2 := by decide
+    omega
+
+/-! ### the AST (`build_ast`, model added by the audit: Syntax/Ast.lean) -/
+
+/-- **Every source location of an AST node is a valid span of the input.**  `build_ast` moves the
+    payload of each event into a block (`FrontMatter`, `Metadata`, `Section`) or an item of a `Step` block,
+    or the text into a `TextBlock`, unchanged; so for every input every block of the AST, every item of
+    every step and every text of every text block has only spans inside the input on character boundaries
+    with `start ≤ end`, and faithful text fragments — and the report `build_ast` returns has only valid
+    labels.  Also for any event list with valid spans, well bracketed or not (`C04_ast_spans_ok_of_events`). -/
+theorem C04_ast_spans_ok {α : Type} [Arith α] (cs : CharSpec) (ext : Ext) (s : List Char) :
+    (∀ b ∈ (buildAstOfInput (α := α) cs ext s).blocks, AstBlockOK 0 s b) ∧
+    (∀ d ∈ (buildAstOfInput (α := α) cs ext s).diags, DiagOK 0 s d) :=
+  ⟨(astBuild_input_ok cs ext s).blocks, (astBuild_input_ok cs ext s).diags⟩
+
+theorem C04_ast_spans_ok_of_events {α : Type} [Arith α] (off : Nat) (w : List Char) (evs : List (Ev α))
+    (hev : ∀ ev ∈ evs, EvSpansOK off w ev) :
+    (∀ b ∈ (buildAst evs).blocks, AstBlockOK off w b) ∧ (∀ d ∈ (buildAst evs).diags, DiagOK off w d) :=
+  ⟨(astBuild_ok evs hev).blocks, (astBuild_ok evs hev).diags⟩
+
+/-! non-vacuity: a step with one text item becomes one `Step` block -/
+example : (buildAst (α := Rat) [.start .step, .text ⟨[⟨['a'], 0, false⟩], 0, false⟩, .stop .step]).blocks =
+    [.step [.text ⟨[⟨['a'], 0, false⟩], 0, false⟩]] := rfl
+
+/-! ### rendering a report: the slicing precondition -/
+
+/-- **"Consequently rendering any report against its input succeeds" — the modelled part.**  The renderer
+    (`write_report`, codesnake) sorts the labels of a diagnostic and cuts the source at their offsets; the
+    cut `&input[start..end]` is the model's `sliceBytes` (`none` = the slice panics).  For every input and
+    environment, every label of every diagnostic of `parse` and of `parse_metadata`, in any order, can be
+    cut out of the input.  The renderer itself is not modelled. -/
+theorem C04_report_labels_sliceable (env : Env) (input : Str) :
+    (∀ d ∈ (parseRecipe (α := Rat) env input).diags.toList, ∀ labels : List Span, labels.Perm d.labels →
+      ∀ l ∈ labels, (sliceBytes input l.start l.stop).isSome = true) ∧
+    (∀ d ∈ (parseMetadata (α := Rat) env input).diags.toList, ∀ labels : List Span, labels.Perm d.labels →
+      ∀ l ∈ labels, (sliceBytes input l.start l.stop).isSome = true) := by
+  refine ⟨fun d hd labels hp l hl => ?_, fun d hd labels hp l hl => ?_⟩
+  · exact sliceBytes_onBoundaries input l
+      (onBoundaries_of_spanOK input l ((C04_analysis_labels_ok env input).1 d hd l (hp.mem_iff.1 hl)))
+  · exact sliceBytes_onBoundaries input l
+      (onBoundaries_of_spanOK input l ((C04_analysis_meta_labels_ok env input).1 d hd l (hp.mem_iff.1 hl)))
+
+/-! ### the statement of C04 over the model, and its proof -/
+
+/-- C04 over the model, clause by clause, for every environment and input:
+    1. every span of every event of the pull parser (and of every diagnostic it emits) is in bounds, on
+       character boundaries, `start ≤ end`, and every text fragment is the input slice at its span;
+    2. the content events are in source order without overlapping;
+    3. the same two for the metadata-only stream;
+    4. every source location of every AST node is such a span;
+    5. every label of every diagnostic of `parse` / `parse_metadata` is such a span, and so is every location
+       the returned recipe keeps (`ColOK`);
+    6. every label can be cut out of the input (the renderer's precondition).
+    `SpanOK` / `TextOK` are statements about bytes by `C04_span_ok_in_bytes`, `C04_boundary_is_char_boundary`,
+    `C04_fragment_is_byte_slice`. -/
+def C04_statement : Prop :=
+  ∀ (env : Env) (input : Str),
+    (∀ ev ∈ (pullEvents (α := Rat) env.cs env.ext input).1.toList, EvSpansOK 0 input ev) ∧
+    SrcOrdered (pullEvents (α := Rat) env.cs env.ext input).1.toList ∧
+    (∀ ev ∈ (pullMetaEvents (α := Rat) env.cs env.ext input).1.toList, EvSpansOK 0 input ev) ∧
+    SrcOrdered (pullMetaEvents (α := Rat) env.cs env.ext input).1.toList ∧
+    (∀ b ∈ (buildAstOfInput (α := Rat) env.cs env.ext input).blocks, AstBlockOK 0 input b) ∧
+    (∀ d ∈ (parseRecipe (α := Rat) env input).diags.toList, ∀ l ∈ d.labels, SpanOK 0 input l) ∧
+    (∀ c, (parseRecipe (α := Rat) env input).output = some c → ColOK input c) ∧
+    (∀ d ∈ (parseMetadata (α := Rat) env input).diags.toList, ∀ l ∈ d.labels, SpanOK 0 input l) ∧
+    (∀ c, (parseMetadata (α := Rat) env input).output = some c → ColOK input c) ∧
+    (∀ d ∈ (parseRecipe (α := Rat) env input).diags.toList, ∀ l ∈ d.labels,
+      (sliceBytes input l.start l.stop).isSome = true) ∧
+    (∀ d ∈ (parseMetadata (α := Rat) env input).diags.toList, ∀ l ∈ d.labels,
+      (sliceBytes input l.start l.stop).isSome = true)
+
+/-- **C04 holds of the model**, for every input, character table, extension set and converter environment. -/
+theorem C04_holds : C04_statement := fun env input =>
+  ⟨C04_event_spans_ok env.cs env.ext input, C04_events_in_source_order env.cs env.ext input,
+   (C04_meta_event_spans_ok env.cs env.ext input).1, (C04_meta_event_spans_ok env.cs env.ext input).2,
+   (C04_ast_spans_ok env.cs env.ext input).1,
+   (C04_analysis_labels_ok env input).1, (C04_analysis_labels_ok env input).2,
+   (C04_analysis_meta_labels_ok env input).1, (C04_analysis_meta_labels_ok env input).2,
+   fun d hd l hl => (C04_report_labels_sliceable env input).1 d hd d.labels (List.Perm.refl _) l hl,
+   fun d hd l hl => (C04_report_labels_sliceable env input).2 d hd d.labels (List.Perm.refl _) l hl⟩
 
 end Cook
